@@ -183,6 +183,17 @@ Devs(im) == (IF HasOpaque(im) THEN {"C04-opaque-ignored"} ELSE {})
        \cup (IF ~FixHidden /\ HasDeepWhiteout(im) THEN {"C04-deep-whiteout-lookup"} ELSE {})
        \cup (IF ~FixHidden /\ HasNonDirOverDir(im) THEN {"C04-nondir-over-dir-lookup"} ELSE {})
 
+\* finding classes of the squashed unpacker (it flattens with go-containerregistry's mutate.Extract)
+\* a path deleted / made a non-directory by layer i, made a directory again by a later layer j, with older contents below it
+HasRecreatedDirOverDeletion(im) ==
+  \E i, j \in DOMAIN im : i > 1 /\ i < j /\ \E a \in DOMAIN im[i] :
+     /\ im[i][a].kind \in {"wh", "f1", "f2", "link"}
+     /\ \E p \in Paths : Under(p, im[i][a].path) /\ Overlay(im, i - 1)[p] # None
+     /\ \E b \in DOMAIN im[j] : im[j][b].path = im[i][a].path \/ Under(im[j][b].path, im[i][a].path)
+SqDevs(im) == (IF HasOpaque(im) THEN {"C04-unpack-opaque-ignored"} ELSE {})
+         \cup (IF HasSameLayerWhRecreate(im) THEN {"C04-unpack-same-layer-whiteout-recreate"} ELSE {})
+         \cup (IF HasRecreatedDirOverDeletion(im) THEN {"C04-unpack-resurrected-under-recreated-dir"} ELSE {})
+
 (* ---- properties ---- *)
 AllViewsWellFormed == Complete => \A i \in 1..Len(img) : WellFormedView(Overlay(Eff(img), i))
 \* completeness of the finding classes: wherever the transcription of the code disagrees with the OCI overlay,
@@ -200,6 +211,6 @@ Case == [layers |-> img, limit |-> Limit,
          expect |-> [i \in 1..Len(img) |-> ViewSeq(Overlay(Eff(img), i))],
          asbuilt_lookup |-> [i \in 1..Len(img) |-> ViewSeq(LookupView(Trees(Eff(img))[i]))],
          asbuilt_walk |-> [i \in 1..Len(img) |-> ViewSeq(WalkView(Trees(Eff(img))[i]))],
-         devs |-> Devs(Eff(img))]
+         devs |-> Devs(Eff(img)), sqdevs |-> SqDevs(Eff(img))]
 Emit == Complete => PrintT(ToJson(Case))
 =============================================================================
